@@ -126,6 +126,9 @@ GROUND = {
     "str_strip": lambda s: s.strip(),
     "str_lstrip": lambda s: s.lstrip(),
     "str_rstrip": lambda s: s.rstrip(),
+    "str_strip_chars": lambda s, c: s.strip(c),
+    "str_lstrip_chars": lambda s, c: s.lstrip(c),
+    "str_rstrip_chars": lambda s, c: s.rstrip(c),
     "str_isspace": lambda s: s.isspace(),
     "str_isdigit": lambda s: s.isdigit(),
     "str_replace": lambda s, a, b: s.replace(a, b),
